@@ -16,7 +16,7 @@ PROPERTY = 'C04'
 LEVEL = 'model_checking'
 RULE = ('every card subset of the 52-card deck of the relevant size(s) is enumerated per hand type (2,598,960 five-card '
         'subsets x 8 five-card types; 294,203 subsets of size 1-4 x 2 badugi types; all single cards for Kuhn), plus wrong-size '
-        'subsets over a 16-card sub-deck and unknown-card variants; a case is one (type, card subset); non-trivial and distinct '
+        'inputs (all subsets of size 1-4 for the five-card types, all rank multisets of size 6-7) and unknown-card variants; a case is one (type, card subset); non-trivial and distinct '
         '= distinct (type, reference strength class) pairs reached (e.g. 7,462 classes for the standard lookup)')
 ASSUMPTIONS = ['card tuples with a repeated card are not "card sets": accepted ones are counted, not judged',
                'a KeyError for unknown ranks counts as a rejection (documented type is ValueError); counted in the evidence',
@@ -68,9 +68,9 @@ def jobs(tier, seed):
         out.append({'family': 'five-card-all-subsets', 'kind': 'five', 'prefixes': pl, 'size': sz})
     # badugi: all subsets of size 1..4, split by first card
     for i in range(52):
-        out.append({'family': 'badugi-all-subsets', 'kind': 'badugi', 'first': i})
+        out.append({'family': 'all-subsets-of-size-1-4', 'kind': 'badugi', 'first': i})
     out.append({'family': 'kuhn-all-cards', 'kind': 'kuhn'})
-    out.append({'family': 'wrong-size-sub16', 'kind': 'sizes'})
+    out.append({'family': 'too-many-cards', 'kind': 'sizes'})
     out.append({'family': 'unknown-cards', 'kind': 'unknown'})
     out.append({'family': 'repeated-cards', 'kind': 'repeated'})
     # pairwise comparison of class representatives with the real operators
@@ -176,6 +176,8 @@ def run_five(job, J):
 
 
 def run_badugi(job, J):
+    """all subsets of size 1-4 with a given first card: valid/invalid for the badugi types, always the wrong size for the
+    five-card types and (sizes 2-4) for Kuhn"""
     D = DECK
     i = job['first']
     sample = None
@@ -184,6 +186,10 @@ def run_badugi(job, J):
             cards = (D[i],) + rest
             for t in BADUGI:
                 J.one(t, cards, H.key(t, cards))
+            for t in FIVE:
+                J.one(t, cards, None, 'wrong-size')
+            if n > 1:
+                J.one('KuhnPokerHand', cards, None, 'wrong-size')
             sample = sample or {'type': 'BadugiHand', 'cards': ''.join(cards)}
     return sample
 
@@ -191,24 +197,42 @@ def run_badugi(job, J):
 def run_kuhn(job, J):
     for c in DECK:
         J.one('KuhnPokerHand', (c,), H.key('KuhnPokerHand', (c,)))
-    for n in (0, 2):
-        for cards in combinations(['Js', 'Qs', 'Ks', 'Jh'], n):
-            J.one('KuhnPokerHand', cards, None, 'wrong-size')
+    for cards in combinations(['Js', 'Qs', 'Ks', 'Jh'], 2):
+        J.one('KuhnPokerHand', cards, None, 'wrong-size')
     return {'type': 'KuhnPokerHand', 'cards': 'Js'}
 
 
 def run_sizes(job, J):
-    for n in (0, 1, 2, 3, 4, 6, 7):
+    """too many cards: every rank multiset of size 6 and 7 (multiplicity <= 4) in a mixed-suit and, where the ranks are
+    distinct, a one-suit form; every subset of sizes 6-7 of a 16-card sub-deck; the empty hand"""
+    order = '23456789TJQKA'
+    for t in ALL_TYPES:
+        J.one(t, (), None, 'wrong-size')
+    for n in (6, 7):
+        for ms in combinations_with_replacement(order, n):
+            if max(Counter(ms).values()) > 4:
+                continue
+            forms = [tuple(r + 'shdc'[i % 4] for i, r in enumerate(sorted(ms)))]
+            if len(set(ms)) == n:
+                forms.append(tuple(r + 's' for r in ms))
+            for cards in forms:
+                if len(set(cards)) != n:
+                    continue
+                for t in FIVE:
+                    J.one(t, cards, None, 'wrong-size')
         for cards in combinations(SUB16, n):
             for t in FIVE:
                 J.one(t, cards, None, 'wrong-size')
-            if n in (0, 6) or n == 5:
-                pass
-    for n in (0, 5, 6):
-        for cards in combinations(SUB16, n):
+    for n in (5, 6):
+        for ms in combinations_with_replacement(order, n):
+            if max(Counter(ms).values()) > 4:
+                continue
+            cards = tuple(r + 'shdc'[i % 4] for i, r in enumerate(sorted(ms)))
+            if len(set(cards)) != n:
+                continue
             for t in BADUGI:
                 J.one(t, cards, None, 'wrong-size')
-    return {'type': 'StandardHighHand', 'cards': ''.join(SUB16[:6]), 'expected': 'rejected (six cards)'}
+    return {'type': 'StandardHighHand', 'cards': '9sTsJsQsKsAs', 'expected': 'rejected (six cards)'}
 
 
 def run_unknown(job, J):
@@ -371,8 +395,8 @@ def sanity(agg, counters, fam, tier):
 
 
 def bounds(tier):
-    return ('complete: all C(52,5) subsets for 8 five-card types, all subsets of size 1-4 for 2 badugi types, Kuhn; wrong sizes '
-            '0-4,6,7 over a 16-card sub-deck; unknown-card variants of all 5-subsets of an 11-card sub-deck; class representatives: '
+    return ('complete: all C(52,5) subsets for 8 five-card types, all subsets of size 1-4 for 2 badugi types, Kuhn; wrong sizes: '
+            'all subsets of size 0-4, all rank multisets of size 6-7 (mixed and one-suit forms); unknown-card variants of all 5-subsets of an 11-card sub-deck; class representatives: '
             + ('all ordered pairs with the real operators' if tier == 'thorough' else
                'each representative against a 48-rung ladder and its 4 nearest neighbours with the real operators'))
 
